@@ -224,7 +224,7 @@ func (c *Ctx) DoMine(id string, f func() Outcome) {
 	if c.announce {
 		c.send(msg{T: "start", ID: id})
 		c.out.Flush()
-	} else if c.evals&63 == 0 && time.Since(c.lastHB) > 3*time.Second {
+	} else if c.evals&3 == 0 && time.Since(c.lastHB) > 3*time.Second {
 		c.lastHB = time.Now()
 		c.send(msg{T: "hb"})
 		c.out.Flush()
